@@ -35,6 +35,120 @@ MANIFEST = {
 }
 
 
+def live_nodes(stmt):
+    """ast.walk that does not enter branches of trivially constant tests"""
+    from sa.obligations import const_test
+    todo = [stmt]
+    while todo:
+        node = todo.pop()
+        yield node
+        if isinstance(node, ast.If) and const_test(node.test) is not None:
+            todo.extend(node.body if const_test(node.test) else node.orelse)
+            continue
+        todo.extend(ast.iter_child_nodes(node))
+
+
+def classify_write(stmts, facts, env, out):
+    """Abstract execution of the body of `if access is a WRITE:` in
+    infer_sharing_attributes. -> True when a `break` was executed."""
+    for stmt in stmts:
+        if isinstance(stmt, ast.Break):
+            return True
+        if isinstance(stmt, ast.If):
+            txt = " ".join(ast.unparse(stmt.test).split())
+            neg = False
+            if txt.startswith("not "):
+                neg, txt = True, txt[4:]
+            if txt in env:
+                val = facts[env[txt]]
+            elif txt == "has_been_read":
+                val = facts["read_before"] != "no"
+            elif txt == "last_read_position < loop_pos":
+                val = facts["read_before"] == "before-loop"
+            else:
+                raise AnalysisError(f"infer_sharing_attributes tests "
+                                    f"'{txt}', which the rule does not "
+                                    f"model")
+            if classify_write(stmt.body if val != neg else stmt.orelse,
+                              facts, env, out):
+                return True
+        elif isinstance(stmt, ast.Assign) and isinstance(stmt.targets[0],
+                                                         ast.Name):
+            txt = " ".join(ast.unparse(stmt.value).split())
+            if ".ancestor((Loop, WhileLoop)" in txt:
+                env[stmt.targets[0].id] = "in_loop"
+            elif ".ancestor(IfBlock" in txt:
+                env[stmt.targets[0].id] = "conditional"
+        elif isinstance(stmt, ast.Expr) and isinstance(stmt.value, ast.Call)\
+                and isinstance(stmt.value.func, ast.Attribute) and \
+                stmt.value.func.attr == "add":
+            out.append(ast.unparse(stmt.value.func.value))
+    return False
+
+
+def check_inference_table(idx, run, cls):
+    """C09.R3: classification of a scalar by its first write"""
+    func = cls.methods["infer_sharing_attributes"]
+    mod = cls.module
+    cons = "OMPParallelDirective.infer_sharing_attributes"
+    ret = [s for s in ast.walk(func) if isinstance(s, ast.Return) and
+           isinstance(s.value, ast.Tuple) and len(s.value.elts) == 3]
+    if not ret:
+        raise AnalysisError("infer_sharing_attributes does not return a "
+                            "3-tuple any more")
+    roles = dict(zip([ast.unparse(e) for e in ret[0].value.elts],
+                     ["private", "firstprivate", "need_sync"]))
+    wr = [s for s in ast.walk(func) if isinstance(s, ast.If) and
+          " ".join(ast.unparse(s.test).split()) ==
+          "access.access_type == AccessType.WRITE"]
+    if len(wr) != 1:
+        raise AnalysisError("the write branch of infer_sharing_attributes "
+                            "was not found")
+    n = 0
+    for in_loop in (False, True):
+        for read_before in ("no", "before-loop", "in-loop"):
+            for conditional in (False, True):
+                facts = {"in_loop": in_loop, "read_before": read_before,
+                         "conditional": conditional}
+                out = []
+                broke = classify_write(wr[0].body, facts, {}, out)
+                got = sorted(roles.get(o, o) for o in out)
+                if not in_loop:
+                    want = []
+                elif read_before == "before-loop":
+                    want = ["firstprivate"]
+                elif read_before == "in-loop":
+                    want = ["need_sync"]
+                elif conditional:
+                    want = ["firstprivate"]
+                else:
+                    want = ["private"]
+                n += 1
+                run.check(
+                    "C09.R3", got == want and broke, cons,
+                    f"first write: in_loop={in_loop} "
+                    f"read_before={read_before} conditional={conditional}",
+                    f"a scalar whose first write is "
+                    f"{'inside' if in_loop else 'outside'} a loop, read "
+                    f"before that write: {read_before}, conditional "
+                    f"write: {conditional} is classified {got or 'shared'}"
+                    f" (decision made: {broke}); it must be "
+                    f"{want or 'shared'}: a value that flows into the "
+                    f"iteration needs firstprivate, one that flows between "
+                    f"iterations needs synchronisation",
+                    loc(mod, wr[0]),
+                    sample={"rule": "C09.R3", "state": facts, "class": got,
+                            "ok": got == want})
+    # reads are recorded before the write test, arrays are skipped
+    txt = " ".join(ast.unparse(func).split())
+    run.check("C09.R3", "if access.access_type == AccessType.READ: "
+              "has_been_read = True" in txt, cons,
+              "reads before the first write are remembered",
+              "reads that precede the first write are no longer recorded",
+              loc(mod, func))
+    return n
+
+
 def check(idx, run):
     run.explanation = __doc__
     check_generic_validate(idx, run, "C09.R1")
@@ -73,7 +187,7 @@ def check(idx, run):
                  ast.unparse(s.test) == sync]
         ok = bool(guard) and any(isinstance(r, ast.Raise) and
                                  "GenerationError" in ast.unparse(r)
-                                 for r in ast.walk(guard[0]))
+                                 for r in live_nodes(guard[0]))
         run.check("C09.R2", ok, cons,
                   "symbols needing synchronisation are refused unless "
                   "covered by a depend clause",
@@ -95,6 +209,7 @@ def check(idx, run):
               "the inference no longer looks at every signature accessed "
               "in the region", loc(mod, ifunc))
     # the legacy gen_code path uses the same inference
+    check_inference_table(idx, run, cls)
     gfunc = cls.methods.get("gen_code")
     if gfunc is not None:
         gtxt = " ".join(ast.unparse(gfunc).split())
@@ -106,5 +221,28 @@ def check(idx, run):
                   "gen_code no longer emits private / firstprivate from "
                   "the inference or accepts symbols needing "
                   "synchronisation", loc(mod, gfunc))
+    pdo = idx.get_class(
+        "psyclone.psyir.nodes.omp_directives.OMPParallelDoDirective")
+    plow = pdo.methods.get("lower_to_language_level")
+    if plow is not None:
+        run.check("C09.R2", "OMPParallelDirective.lower_to_language_level("
+                  "self)" in ast.unparse(plow),
+                  "OMPParallelDoDirective.lower_to_language_level",
+                  "parallel-do lowering builds the clauses of the parallel "
+                  "directive", "the combined parallel-do directive no "
+                  "longer builds its private / firstprivate clauses "
+                  "through OMPParallelDirective.lower_to_language_level",
+                  loc(pdo.module, plow))
+    pgen = pdo.methods.get("gen_code")
+    if pgen is not None:
+        gtxt = " ".join(ast.unparse(pgen).split())
+        run.check("C09.R2", "self.infer_sharing_attributes()" in gtxt and
+                  "'private('" in gtxt and "'firstprivate('" in gtxt and
+                  "if need_sync: raise GenerationError" in gtxt,
+                  "OMPParallelDoDirective.gen_code",
+                  "legacy parallel-do generation uses the inference too",
+                  "OMPParallelDoDirective.gen_code no longer emits "
+                  "private / firstprivate from the inference or accepts "
+                  "symbols needing synchronisation", loc(pdo.module, pgen))
     run.assumptions = ["C08 decides the dependence-analysis plumbing",
                        "thread schedules are not explored"]
